@@ -439,6 +439,9 @@ pub fn run(ctx: &Ctx) -> Report {
     let mut acc = acc1.merge(acc2).merge(acc_len);
     // thread teardown: the same push / pull programs from a thread-local destructor (child process)
     crate::teardown::judge(P, "tcp", &mut acc);
+    crate::teardown::callsite_sweep(P, "tcp", &mut acc);
+    // allocation failure inside push_data / pull_data, one allocation at a time (child processes; alloc.rs)
+    crate::teardown::alloc_probe(P, &mut acc);
     Report {
         acc,
         exhaustive: true,
